@@ -9,6 +9,7 @@ import Driver.Singleflight
 import Driver.Session
 import Driver.Reconstruct
 import Driver.Xorb
+import Driver.ShardOps
 open Xet.Drv
 
 def dispatch (blob : Blob) (line : String) : String :=
@@ -18,6 +19,7 @@ def dispatch (blob : Blob) (line : String) : String :=
   | cmd :: rest =>
     if cmd == "chunker" then handleChunker blob rest
     else if cmd.startsWith "hash" || cmd.startsWith "hex." then handleHash blob cmd rest
+    else if cmd.startsWith "shardop." then handleShardOps blob cmd rest
     else if cmd.startsWith "shard." then handleShard blob cmd rest
     else if cmd.startsWith "sess." || cmd == "sha256" then handleSession blob cmd rest
     else if cmd.startsWith "xorb." then handleXorb blob cmd rest
